@@ -92,7 +92,7 @@ class TCPServer:
                 await self.idle_task.stop()
 
     async def _read_data(self) -> None:
-        while not self.reader.at_eof():
+        while True:
             try:
                 data = await asyncio.wait_for(self.reader.read(MAX_RECV), self.config.read_timeout)
             except (
@@ -105,6 +105,8 @@ class TCPServer:
                 break
             else:
                 await self.protocol.handle(RawData(data))
+                if data == b"":
+                    break
 
         await self.protocol.handle(Closed())
 
